@@ -59,5 +59,64 @@ func main() {
 		p.Run(ctx)
 		rules.FinishFields(ctx)
 	}()
+	if *tier == "thorough" {
+		secondConfiguration(p, R, *repo, *verif)
+	}
 	os.Exit(R.Finish(*verif, seed))
+}
+
+// secondConfiguration (thorough tier): the same rules are decided once more on the program as the build sees it for a
+// 32-bit target (GOARCH=386: other type sizes, other build-constrained files, another bounds-check report).  Every
+// obligation of that run that is violated or undecided and is not a listed known finding is carried into the report
+// (key prefixed with the configuration); the discharged ones are counted.
+func secondConfiguration(p *rules.Prop, R *core.Report, repo, verif string) {
+	R2 := core.NewReport(p.ID, "thorough", p.Level)
+	summary := map[string]any{"GOARCH": "386"}
+	defer func() { R.Analysed["second_configuration"] = summary }()
+	P2, err := load.Load(load.Config{Repo: repo, GOARCH: "386"})
+	if err != nil {
+		R.Unknown("framework", "load@GOARCH=386", "load "+repo+" for GOARCH=386", "", "the tree does not load/type-check for the second configuration: "+err.Error())
+		return
+	}
+	model.InitConstMaps(P2)
+	func() {
+		defer func() {
+			if e := recover(); e != nil {
+				R2.Unknown("framework", "panic", "checker panic", "", fmt.Sprint(e))
+			}
+		}()
+		ctx := &rules.Ctx{P: P2, R: R2, Tier: "thorough", VerifDir: verif}
+		p.Run(ctx)
+		rules.FinishFields(ctx)
+	}()
+	known := map[string]bool{}
+	if fs, err := core.LoadFindings(verif + "/known_findings.json"); err == nil {
+		for _, f := range fs {
+			if f.Property == p.ID && f.Status == "known" {
+				known[f.Key] = true
+			}
+		}
+	}
+	nd, nb, nk := 0, 0, 0
+	for _, o := range R2.Obls {
+		switch o.Status {
+		case core.Discharged:
+			nd++
+		default:
+			if o.Status == core.Violated && known[o.Key] {
+				nk++
+				continue
+			}
+			nb++
+			o2 := *o
+			o2.Key = o.Key + "@GOARCH=386"
+			o2.Construct = "[GOARCH=386] " + o.Construct
+			R.Obls = append(R.Obls, &o2)
+		}
+	}
+	summary["obligations"] = len(R2.Obls)
+	summary["discharged"] = nd
+	summary["known"] = nk
+	summary["violated_or_undecided"] = nb
+	summary["packages"] = len(P2.Pkgs)
 }
